@@ -1,2 +1,76 @@
-(* Props/C03.v - placeholder, extended below *)
-From MM Require Import Model.Conn Model.Resp.
+(* Props/C03.v - Every command gets exactly one complete, well-formed response (lockstep).
+   Proved here: for every column count, row list and capability setting the packets each handler plan of
+   Model/Conn.v writes form a response of the protocol grammar Model/Resp.v; a response cut at ANY point
+   and completed by one ERR is a response; nothing may follow a complete response.
+   The composition "the machine emits exactly plan packets + at most one ERR between two reads" is tied to
+   the code by the lock-step runs (every implementation response is run through the grammar inside Coq). *)
+From Coq Require Import List Arith NArith Lia Bool.
+From MM Require Import Lib.Bytes Model.Conn Model.Resp Proofs.RespProofs Proofs.C10Proofs Gen.FactsConn Gen.FactsPackets.
+Import ListNotations.
+Open Scope N_scope.
+
+Definition BATCH : N := utils_batch_size.
+
+Theorem c03_source_shape :
+  translated_conn = true /\ connection_connection_command_phase_ok = true /\ connection_connection_handle_query_ok = true /\
+  connection_connection_text_resultset_ok = true /\ connection_connection_ok_or_eof_ok = true /\
+  connection_connection_handle_stmt_prepare_ok = true /\ connection_connection_com_stmt_prepare_response_ok = true /\
+  connection_connection_handle_stmt_execute_ok = true /\ connection_connection_handle_stmt_fetch_ok = true /\
+  connection_connection_handle_field_list_ok = true /\ connection_connection_handle_stmt_send_long_data_ok = true /\
+  connection_connection_handle_stmt_close_ok = true /\ connection_connection_handle_ping_ok = true /\
+  connection_connection_handle_init_db_ok = true /\ connection_connection_handle_stmt_reset_ok = true /\
+  stream_mysqlstream_write_ok = true /\ stream_mysqlstream_reset_seq_ok = true /\
+  types_cap_deprecate_eof_bit = 24.
+Proof. repeat split; reflexivity. Qed.
+
+Theorem c03_text_resultset : forall s sz items, has_raise items = false -> sz_coldef sz <> [] ->
+  accepts (deprecate_eof s) RKQuery (plan_pkts (text_plan BATCH s sz items)) = true.
+Proof. exact (text_plan_accepted BATCH). Qed.
+
+Theorem c03_resultset_grammar : forall dep cols idx, cols <> [] -> accepts dep RKQuery (resultset dep cols idx) = true.
+Proof. exact resultset_accepted. Qed.
+
+Theorem c03_binary_resultset : forall dep cols idx, cols <> [] -> accepts dep (RKExecute false) (resultset dep cols idx) = true.
+Proof. exact exec_resultset_accepted. Qed.
+
+Theorem c03_cursor_open : forall dep cols, cols <> [] ->
+  accepts dep (RKExecute true) (PColCount (len cols) :: map (fun _ : N => PColDef) cols ++ [term_pkt dep FL_CURSOR_EXISTS]) = true.
+Proof. exact cursor_open_accepted. Qed.
+
+Theorem c03_prepare_block : forall s n sz, n = len (sz_coldef sz) ->
+  accepts (deprecate_eof s) RKPrepare (plan_pkts (snd (handler BATCH s (CPrepare n sz)))) = true.
+Proof. exact (prepare_plan_accepted BATCH). Qed.
+
+Theorem c03_field_list : forall dep defs,
+  accepts dep RKFieldList (map (fun _ : N => PFieldList 1) defs ++ [term_pkt dep 0]) = true.
+Proof. exact fieldlist_accepted. Qed.
+
+(* failure half-way through streaming: what was written plus exactly one ERR is a response *)
+Theorem c03_midstream_failure : forall dep c pre post code, c <> RKNone ->
+  accepts dep c (pre ++ post) = true -> post <> [] -> accepts dep c (pre ++ [PErr code]) = true.
+Proof. exact midstream_err_accepted. Qed.
+
+Theorem c03_single_err : forall dep c code, c <> RKNone -> accepts dep c [PErr code] = true.
+Proof. exact err_only_accepted. Qed.
+
+(* the client is never sent a packet it did not ask for: anything after a complete response is rejected *)
+Theorem c03_nothing_after_complete : forall dep c ps extra, accepts dep c ps = true -> c <> RKNone -> extra <> [] ->
+  accepts dep c (ps ++ extra) = false.
+Proof. exact nothing_after_complete. Qed.
+
+(* the no-reply commands produce no packet, also for unknown statement ids *)
+Theorem c03_no_reply_commands : forall s id,
+  plan_pkts (snd (handler BATCH s (CLongData id))) = [] /\ plan_pkts (snd (handler BATCH s (CClose id))) = [] /\
+  plan_pkts (snd (handler BATCH s CQuit)) = [].
+Proof. intros. repeat split; reflexivity. Qed.
+
+(* 300 rows: the sequence ids wrap through 255 -> 0 and the response is still the grammar's *)
+Example c03_seq_wrap :
+  let r := Proofs.C10Proofs.session conn_buffer_size BATCH 50
+             [EvHandshake true true; EvDecide ASuccess; EvApp OVoid; EvPayload CQuery;
+              EvApp (OSet (mk_sizes 1 [20] 5 7) (repeat (IRow 5) 300))] in
+  let pk := flat_map (fun o => match o with OWrite ps => ps | _ => [] end) (snd r) in
+  map fst (skipn 256 pk) = [255; 0; 1; 2; 3; 4; 5; 6; 7; 8; 9; 10; 11; 12; 13; 14; 15; 16; 17; 18; 19; 20; 21; 22; 23; 24;
+                            25; 26; 27; 28; 29; 30; 31; 32; 33; 34; 35; 36; 37; 38; 39; 40; 41; 42; 43; 44; 45; 46; 47] /\
+  accepts true RKQuery (map snd (skipn 2 pk)) = true.
+Proof. vm_compute. split; reflexivity. Qed.
